@@ -48,7 +48,9 @@ EdgeKind(k) == IF k = "slice" THEN "slice" ELSE IF IsStruct(k) THEN "struct" ELS
 DefLt(k, i) == IF i = 1 THEN "p" ELSE "q"           \* names of the struct definitions' lifetimes
 \* return kinds:  ropq &'1 Opq | roptopq Option<&'1 Opq> | rslice &'1 str | rbox Box<OpLt<'1>> | rst1 St1<'1>
 \*                rst2 St2<'1,'2> | ropqlt &'1 OpLt<'2> (implies '2: '1)
-RSlots(k) == IF k \in {"rst2", "ropqlt"} THEN 2 ELSE 1
+\*                rerr1 Result<(), Er1<'1>> | rwerr1 Result<(), Er1<'1>> with a write-out | rokerr Result<&'1 Opq, Er1<'2>>
+\*                (the ERROR type of a fallible method is part of the returned value: the thrown error object borrows, too)
+RSlots(k) == IF k \in {"rst2", "ropqlt", "rokerr"} THEN 2 ELSE 1
 
 Tuples(S, n) == IF n = 1 THEN {<<x>> : x \in S} ELSE {<<x, y>> : x \in S, y \in S}
 \* only the lifetime of a reference itself may be left anonymous; lifetime arguments of named types are written out
@@ -62,7 +64,7 @@ Ret == UNION {{[kind |-> k, slots |-> s] : s \in Tuples(LR, RSlots(k))} : k \in 
 Self == (IF "none" \in SelfKinds THEN {[kind |-> "none", slots |-> <<>>]} ELSE {})
         \cup (IF "ref" \in SelfKinds THEN {[kind |-> "ref", slots |-> <<l>>] : l \in L \cup {"anon"}} ELSE {})
         \cup (IF "sf2b" \in SelfKinds /\ {"a", "b"} \subseteq L THEN {[kind |-> "sf2b", slots |-> <<l, "a", "b">>] : l \in L \cup {"anon"}} ELSE {})
-Pairs == {<<x, y>> \in L \X L : x # y}                 \* <<x,y>> means  'x: 'y  (x outlives y)
+Pairs == {xy \in L \X L : xy[1] # xy[2]}                 \* <<x,y>> means  'x: 'y  (x outlives y)
 ParamSeqs == UNION {IF n = 1 THEN {<<p>> : p \in Param} ELSE {<<p, q>> : p \in Param, q \in Param} : n \in NParams}
 \* `Self` only means something with lifetimes inside the impl of the borrowing type
 PselfOK(s) == \A i \in 1..Len(s.params) : s.params[i].kind = "pself" => s.self.kind = "sf2b"
@@ -82,9 +84,10 @@ DefImplied(s) ==
   {<<s.params[i].slots[2], s.params[i].slots[1]>> : i \in {j \in 1..Len(s.params) : s.params[j].kind \in {"st2b", "stv"}}}
   \cup (IF s.self.kind = "sf2b" THEN {<<s.self.slots[3], s.self.slots[2]>>} ELSE {})
 Named(R) == {pr \in R : pr[1] \in L /\ pr[2] \in L /\ pr[1] # pr[2]}
-RECURSIVE TC(_)
-TC(R) == LET R2 == R \cup {<<x, z>> \in L \X L : \E y \in L : <<x, y>> \in R /\ <<y, z>> \in R}
-         IN IF R2 = R THEN R ELSE TC(R2)
+\* transitive closure by repeated squaring: n rounds close every chain of up to 2^n links, so Cardinality(L) rounds are exact
+\* (a recursive FUNCTION rather than a RECURSIVE operator, and no tuple patterns, so that TLAPS can load this module)
+Sq(R) == R \cup {xz \in L \X L : \E y \in L : <<xz[1], y>> \in R /\ <<y, xz[2]>> \in R}
+TC(R) == LET f[n \in Nat] == IF n = 0 THEN R ELSE Sq(f[n - 1]) IN f[Cardinality(L)]
 Outlives(s) == TC(Named(s.decl \cup RefImplied(s) \cup DefImplied(s) \cup PselfImplied(s)) \cup {<<l, l>> : l \in L})
 
 \* ---- the gate's last clause: bounds implied by definitions must be spelled out on the method ---
